@@ -1,8 +1,11 @@
 (* C08: lemmas about the sensor smoothing model (Model/Sensor.v). *)
-From Coq Require Import ZArith Bool List Floats Lia.
-From F2G Require Import Go.GoFloat Model.Util Model.Sensor.
+From Coq Require Import ZArith Bool List Floats Lia Reals Lra.
+From Flocq Require Import Core.
+From F2G Require Import Go.GoFloat Model.Util Model.Sensor Proofs.SensorFloat.
 Import ListNotations.
 Open Scope Z_scope.
+
+(* ------------------------------------------------------------------ faults *)
 
 (* a failed read or a non-finite reading leaves the average unchanged, for every backend *)
 Lemma fault_skips : forall k n avg r, fault r -> poll k n avg r = avg.
@@ -11,3 +14,293 @@ Proof.
   - destruct k; reflexivity.
   - destruct k; cbn; try reflexivity. rewrite Hf. reflexivity.
 Qed.
+
+Lemma faultb_spec r : faultb r = true <-> fault r.
+Proof.
+  unfold fault. destruct r as [|z|f]; cbn; split; intros H; auto; try discriminate.
+  - destruct H as [H|[f [H _]]]; discriminate.
+  - right. exists f. split; auto. now apply negb_true_iff.
+  - destruct H as [H|[f' [H1 H2]]]; [discriminate|]. inversion H1; subst. now rewrite H2.
+Qed.
+
+(* every value that reaches the average is a finite number: NaN / Inf never get in *)
+Lemma value_of_finite k r v : value_of k r = Some v -> (exists z, v = i2f z) \/ is_finite v = true.
+Proof.
+  unfold value_of, get_value. destruct k, r as [|z|f]; try discriminate; intros H; inversion H; eauto.
+  destruct (is_finite f) eqn:E; inversion H1; subst. now right.
+Qed.
+
+Lemma poll_value k n a r v : value_of k r = Some v -> poll k n a r = upd_avg a n v.
+Proof.
+  unfold value_of, poll, update_sensor, update_sensor_with. destruct (get_value k r); intros H; inversion H; reflexivity.
+Qed.
+
+Lemma poll_novalue k n a r : value_of k r = None -> poll k n a r = a.
+Proof.
+  unfold value_of, poll, update_sensor, update_sensor_with. destruct (get_value k r); intros H; inversion H; reflexivity.
+Qed.
+
+(* ------------------------------------------------------------------ one step *)
+
+(* window >= 2: the new average is finite, within the magnitude bound and between the old
+   average and the reading -- for ALL binary64 values of magnitude <= 2^1021 *)
+Lemma step_between a n x : 2 <= n < 2 ^ 63 -> bnd a -> bnd x ->
+  bnd (upd_avg a n x) /\
+  ((R_of a <= R_of (upd_avg a n x) <= R_of x)%R \/ (R_of x <= R_of (upd_avg a n x) <= R_of a)%R).
+Proof.
+  intros Hn Ba Bx.
+  destruct (upd_R a n x Ba Bx ltac:(lia)) as [F [E [Hr Hr2]]].
+  specialize (Hr2 ltac:(lia)). cbv zeta in *.
+  set (r := round radix2 (FLT_exp (-1074) 53) ZnearestE (1 / round radix2 (FLT_exp (-1074) 53) ZnearestE (IZR n))) in *.
+  assert (Hrr : (0 <= r <= 1 / 2)%R) by lra.
+  destruct Ba as [Fa Ba], Bx as [Fx Bx].
+  pose proof (format_R_of a) as FA. pose proof (format_R_of x) as FX.
+  apply Rabs_le_inv in Ba, Bx.
+  destruct (Rle_or_lt (R_of a) (R_of x)) as [Hax|Hax].
+  - pose proof (upd_between_le (R_of a) (R_of x) r FA FX Hax Hrr) as H. rewrite <- E in H.
+    split; [|left; exact H]. split; [exact F|]. apply Rabs_le. lra.
+  - pose proof (upd_between_ge (R_of a) (R_of x) r FA FX ltac:(lra) Hrr) as H. rewrite <- E in H.
+    split; [|right; exact H]. split; [exact F|]. apply Rabs_le. lra.
+Qed.
+
+(* integers of magnitude below 2^52, as real values *)
+Definition sint (v : f64) : Prop := fin v /\ exists z, Z.abs z < 2 ^ 52 /\ R_of v = IZR z.
+
+Lemma format_IZR z : Z.abs z < 2 ^ 53 -> generic_format radix2 (FLT_exp (-1074) 53) (IZR z).
+Proof.
+  intros H. apply generic_format_FLT. apply FLT_spec with (Float radix2 z 0).
+  - unfold F2R. simpl. ring.
+  - simpl. exact H.
+  - simpl. lia.
+Qed.
+
+Lemma small_int_sint v : small_int v -> sint v.
+Proof.
+  intros [z [Hz ->]]. destruct (i2f_R z) as [F R]; [lia|]. split; [exact F|].
+  exists z. split; [exact Hz|]. rewrite R. apply round_generic; auto with typeclass_instances.
+  apply format_IZR. lia.
+Qed.
+
+Lemma sint_bnd v : sint v -> bnd v.
+Proof.
+  intros [F [z [Hz R]]]. split; [exact F|]. rewrite R. rewrite <- abs_IZR.
+  apply Rle_trans with (IZR (2 ^ 52)); [apply IZR_le; lia|].
+  change (IZR (2 ^ 52)) with (bpow radix2 52). apply bpow_le. lia.
+Qed.
+
+(* window = 1 on small integers: the subtraction is exact and the new average IS the reading *)
+Lemma step_one a x : sint a -> sint x -> fin (upd_avg a 1 x) /\ R_of (upd_avg a 1 x) = R_of x.
+Proof.
+  intros Sa Sx.
+  destruct (upd_R a 1 x (sint_bnd a Sa) (sint_bnd x Sx) ltac:(lia)) as [F [E _]]. cbv zeta in E.
+  split; [exact F|]. rewrite E.
+  destruct Sa as [_ [za [Hza Ra]]], Sx as [_ [zx [Hzx Rx]]].
+  rewrite rnd_1. replace (1 / 1)%R with 1%R by lra. rewrite rnd_1.
+  assert (Hd : round radix2 (FLT_exp (-1074) 53) ZnearestE (R_of x - R_of a) = (R_of x - R_of a)%R).
+  { apply round_generic; auto with typeclass_instances. rewrite Ra, Rx, <- minus_IZR. apply format_IZR. lia. }
+  rewrite Hd. rewrite Rmult_1_l.
+  rewrite (round_generic radix2 (FLT_exp (-1074) 53) ZnearestE (R_of x - R_of a)).
+  2:{ rewrite Ra, Rx, <- minus_IZR. apply format_IZR. lia. }
+  replace (R_of a + (R_of x - R_of a))%R with (R_of x) by ring.
+  apply round_generic; auto with typeclass_instances. apply format_R_of.
+Qed.
+
+(* ------------------------------------------------------------------ sequences *)
+
+Definition okv (n : Z) (v : f64) : Prop := if n =? 1 then sint v else bnd v.
+
+Lemma value_ok_okv n v : value_ok n v -> okv n v.
+Proof.
+  unfold value_ok, okv. destruct (n =? 1); [apply small_int_sint|apply boundedb_bnd].
+Qed.
+
+Lemma okv_bnd n v : okv n v -> bnd v.
+Proof. unfold okv. destruct (n =? 1); [apply sint_bnd|auto]. Qed.
+
+Lemma okv_fin n v : okv n v -> fin v.
+Proof. intros H. apply okv_bnd in H. apply H. Qed.
+
+Lemma fle_R a b : fin a -> fin b -> (fle a b = true <-> (R_of a <= R_of b)%R).
+Proof. apply leb_R. Qed.
+
+Lemma in_hull_weaken seen a v : in_hull seen a -> in_hull (v :: seen) a.
+Proof.
+  intros [[v1 [I1 L1]] [v2 [I2 L2]]]. split; [exists v1|exists v2]; split; auto; now right.
+Qed.
+
+Theorem hull_run k n : 1 <= n < 2 ^ 63 -> forall rs seen a,
+  okv n a -> Forall (okv n) seen -> in_hull seen a ->
+  Forall (value_ok n) (values k rs) ->
+  HullRun k n seen a rs.
+Proof.
+  intros Hn. induction rs as [|r rest IH]; intros seen a Oa Os Hh Hv; [exact I|].
+  cbn [HullRun values] in *. cbv zeta.
+  destruct (value_of k r) as [v|] eqn:Ev.
+  - rewrite (poll_value k n a r v Ev).
+    apply Forall_cons_iff in Hv. destruct Hv as [Hv Hrest].
+    apply value_ok_okv in Hv.
+    assert (Oa' : okv n (upd_avg a n v) /\ in_hull (v :: seen) (upd_avg a n v)).
+    { unfold okv in *. destruct (n =? 1) eqn:E1.
+      - apply Z.eqb_eq in E1. subst n.
+        destruct (step_one a v Oa Hv) as [F R]. split.
+        + split; [exact F|]. destruct Hv as [_ [z [Hz Rz]]]. exists z. split; [exact Hz|]. now rewrite R.
+        + destruct Hv as [Fv _].
+          split; exists v; (split; [now left|]); apply fle_R; auto; rewrite R; apply Rle_refl.
+      - apply Z.eqb_neq in E1.
+        destruct (step_between a n v ltac:(lia) Oa Hv) as [B Hb]. split; [exact B|].
+        destruct Hh as [[v1 [I1 L1]] [v2 [I2 L2]]].
+        assert (F1 : fin v1).
+        { rewrite Forall_forall in Os. specialize (Os v1 I1). apply Os. }
+        assert (F2 : fin v2).
+        { rewrite Forall_forall in Os. specialize (Os v2 I2). apply Os. }
+        destruct Oa as [Fa _]. destruct Hv as [Fv _]. destruct B as [Fa' _].
+        apply fle_R in L1; auto. apply fle_R in L2; auto.
+        destruct Hb as [Hb|Hb].
+        + split; [exists v1; split; [now right|]|exists v; split; [now left|]]; apply fle_R; auto; lra.
+        + split; [exists v; split; [now left|]|exists v2; split; [now right|]]; apply fle_R; auto; lra. }
+    destruct Oa' as [Oa' Hh'].
+    split; [|split; [exact Hh'|]].
+    + apply fin_is_finite. exact (okv_fin n _ Oa').
+    + apply IH; auto.
+  - rewrite (poll_novalue k n a r Ev). split; [|split; [exact Hh|]].
+    + apply fin_is_finite. exact (okv_fin n _ Oa).
+    + apply IH; auto.
+Qed.
+
+(* the statement of C08_hull: start from the seeded / initial average *)
+Theorem hull k n init rs : 1 <= n < 2 ^ 63 ->
+  value_ok n init -> Forall (value_ok n) (values k rs) ->
+  HullRun k n [init] init rs.
+Proof.
+  intros Hn Hi Hv. apply hull_run; auto.
+  - now apply value_ok_okv.
+  - constructor; [now apply value_ok_okv|constructor].
+  - apply value_ok_okv in Hi. pose proof (okv_fin n init Hi) as F.
+    split; exists init; (split; [now left|]); apply fle_R; auto; apply Rle_refl.
+Qed.
+
+(* not poisoned: one poll of a bounded average with any reading whose value is bounded stays finite
+   (any window >= 1; a failed or non-finite read leaves the average as it is) *)
+Theorem not_poisoned k n a r : 1 <= n < 2 ^ 63 -> boundedb a = true ->
+  (forall v, value_of k r = Some v -> boundedb v = true) ->
+  is_finite (poll k n a r) = true.
+Proof.
+  intros Hn Ha Hr. apply boundedb_bnd in Ha.
+  destruct (value_of k r) as [v|] eqn:Ev.
+  - rewrite (poll_value k n a r v Ev). specialize (Hr v eq_refl). apply boundedb_bnd in Hr.
+    apply fin_is_finite. apply (upd_R a n v Ha Hr Hn).
+  - rewrite (poll_novalue k n a r Ev). apply fin_is_finite. apply Ha.
+Qed.
+
+(* integer readings need no guard when the window is >= 2: every int64 (> minInt) is bounded *)
+Lemma i2f_bounded z : Z.abs z < 2 ^ 63 -> boundedb (i2f z) = true.
+Proof.
+  intros Hz. destruct (i2f_R z Hz) as [F R]. destruct c1021_R as [Fc Rc].
+  unfold boundedb. rewrite PrimFloat.leb_equiv, PrimFloat.abs_equiv.
+  rewrite BinarySingleNaN.Bleb_correct; [|rewrite BinarySingleNaN.is_finite_Babs; exact F|exact Fc].
+  rewrite BinarySingleNaN.B2R_Babs. fold (R_of (i2f z)). fold (R_of 0x1p1021%float). rewrite R, Rc.
+  apply Rle_bool_true. unfold B1021.
+  apply Rle_trans with (bpow radix2 63); [|apply bpow_le; lia].
+  apply rnd_abs_le_bpow; [lia|]. rewrite <- abs_IZR. change (bpow radix2 63) with (IZR (2 ^ 63)). apply IZR_le. lia.
+Qed.
+
+(* one poll never overshoots and never moves away from the reading (window >= 2, guard) *)
+Theorem between_step k n a r v : 2 <= n < 2 ^ 63 -> boundedb a = true -> value_of k r = Some v -> boundedb v = true ->
+  (fle a (poll k n a r) = true /\ fle (poll k n a r) v = true) \/
+  (fle v (poll k n a r) = true /\ fle (poll k n a r) a = true).
+Proof.
+  intros Hn Ha Ev Hv. rewrite (poll_value k n a r v Ev).
+  apply boundedb_bnd in Ha, Hv.
+  destruct (step_between a n v Hn Ha Hv) as [[F _] Hb].
+  destruct Ha as [Fa _], Hv as [Fv _].
+  destruct Hb as [Hb|Hb]; [left|right]; split; apply fle_R; auto; lra.
+Qed.
+
+(* ------------------------------------------------------------------ boolean form of the hull *)
+Definition in_hullb (seen : list f64) (a : f64) : bool :=
+  existsb (fun v => fle v a) seen && existsb (fun v => fle a v) seen.
+
+Lemma in_hullb_spec seen a : in_hullb seen a = true <-> in_hull seen a.
+Proof.
+  unfold in_hullb, in_hull. rewrite andb_true_iff, !existsb_exists. tauto.
+Qed.
+
+Fixpoint hull_runb (k : kind) (n : Z) (seen : list f64) (a : f64) (rs : list reading) : bool :=
+  match rs with
+  | [] => true
+  | r :: rest =>
+      let a' := poll k n a r in
+      let seen' := match value_of k r with Some v => v :: seen | None => seen end in
+      is_finite a' && in_hullb seen' a' && hull_runb k n seen' a' rest
+  end.
+
+Lemma hull_runb_spec k n : forall rs seen a, hull_runb k n seen a rs = true <-> HullRun k n seen a rs.
+Proof.
+  induction rs as [|r rest IH]; intros seen a; cbn [hull_runb HullRun]; [tauto|].
+  cbv zeta. rewrite !andb_true_iff, in_hullb_spec, IH. tauto.
+Qed.
+
+(* the unguarded statement is false in binary64 (finding D20) *)
+Definition hull_full : Prop := forall k n init rs, 1 <= n < 2 ^ 63 ->
+  is_finite init = true -> Forall (fun r => forall f, r = ValF f -> is_finite f = true) rs ->
+  HullRun k n [init] init rs.
+
+Definition d20_w1 : bool := hull_runb KHwmon 1 [i2f (- 2 ^ 53)] (i2f (- 2 ^ 53)) [ValZ 3].
+Definition d20_w2 : bool := hull_runb KCmd 2 [(-1e308)%float] (-1e308)%float [ValF 1e308%float; ValF 1%float; ValF 1%float].
+Lemma d20_w1_false : d20_w1 = false. Proof. vm_compute. reflexivity. Qed.
+Lemma d20_w2_false : d20_w2 = false. Proof. vm_compute. reflexivity. Qed.
+
+Lemma hull_refuted_extreme :
+  (* window 1: the average jumps past the reading *)
+  upd_avg (i2f (- 2 ^ 53)) 1 (i2f 3) = 4%float /\
+  ~ HullRun KHwmon 1 [i2f (- 2 ^ 53)] (i2f (- 2 ^ 53)) [ValZ 3] /\
+  (* magnitude 1e308: the difference overflows, the average becomes +Inf and then NaN for ever *)
+  avgs KCmd 2 (-1e308)%float [ValF 1e308%float; ValF 1%float; ValF 1%float] = [infinity; nan; nan] /\
+  ~ HullRun KCmd 2 [(-1e308)%float] (-1e308)%float [ValF 1e308%float; ValF 1%float; ValF 1%float] /\
+  ~ hull_full.
+Proof.
+  assert (H1 : ~ HullRun KHwmon 1 [i2f (- 2 ^ 53)] (i2f (- 2 ^ 53)) [ValZ 3]).
+  { intros H. apply hull_runb_spec in H. change (d20_w1 = true) in H. rewrite d20_w1_false in H. discriminate. }
+  assert (H2 : ~ HullRun KCmd 2 [(-1e308)%float] (-1e308)%float [ValF 1e308%float; ValF 1%float; ValF 1%float]).
+  { intros H. apply hull_runb_spec in H. change (d20_w2 = true) in H. rewrite d20_w2_false in H. discriminate. }
+  split; [vm_compute; reflexivity|]. split; [exact H1|]. split; [vm_compute; reflexivity|]. split; [exact H2|].
+  intros Hf. apply H1. apply Hf; [lia|vm_compute; reflexivity|].
+  constructor; [intros f E; discriminate|constructor].
+Qed.
+
+(* ------------------------------------------------------------------ convergence *)
+
+(* the idealisation: the same update over the reals (no rounding). NOT a statement about the code's
+   binary64 arithmetic -- see [between_step] for what is proved of the floats. *)
+Definition upd_ideal (n : Z) (a x : R) : R := (a + (1 / IZR n) * (x - a))%R.
+
+Fixpoint iter_ideal (n : Z) (a x : R) (k : nat) : R :=
+  match k with O => a | S k' => upd_ideal n (iter_ideal n a x k') x end.
+
+Lemma ideal_step n a x : 1 <= n -> (x - upd_ideal n a x = (1 - 1 / IZR n) * (x - a))%R.
+Proof. intros Hn. unfold upd_ideal. assert (IZR n <> 0)%R by (apply not_0_IZR; lia). field. assumption. Qed.
+
+Theorem converges_ideal n a x k : 1 <= n ->
+  (x - iter_ideal n a x k = (1 - 1 / IZR n) ^ k * (x - a))%R.
+Proof.
+  intros Hn. induction k as [|k IH]; cbn [iter_ideal pow]; [ring|].
+  rewrite ideal_step by exact Hn. rewrite IH. ring.
+Qed.
+
+Lemma ideal_factor n : 1 <= n -> (0 <= 1 - 1 / IZR n < 1)%R.
+Proof.
+  intros Hn. assert (1 <= IZR n)%R by (apply IZR_le; lia).
+  assert (0 < / IZR n <= 1)%R.
+  { split; [apply Rinv_0_lt_compat; lra|]. rewrite <- Rinv_1. apply Rinv_le_contravar; lra. }
+  lra.
+Qed.
+
+(* ------------------------------------------------------------------ what D9 was (before the repairs) *)
+Lemma d9_was_violated :
+  (* file sensor: a failed read was averaged in as the value 0 *)
+  poll_d9 KFile 10 50000%float ReadErr = 45000%float /\
+  (* cmd sensor: one "nan" poisoned the average for ever *)
+  poll_d9 KCmd 10 45.5%float (ValF nan) = nan /\ poll_d9 KCmd 10 nan (ValF 46%float) = nan /\
+  (* the repaired code skips both *)
+  poll KFile 10 50000%float ReadErr = 50000%float /\ poll KCmd 10 45.5%float (ValF nan) = 45.5%float.
+Proof. vm_compute. repeat split; reflexivity. Qed.
